@@ -192,9 +192,12 @@ class JsonDocument(HierDictDocument):
                     in_string = in_string.decode(in_string_encoding)
             ctx.in_document = json.loads(in_string, **self.kwargs)
 
-        except (JSONDecodeError, UnicodeDecodeError, RecursionError) as e:
+        except (JSONDecodeError, UnicodeDecodeError, RecursionError,
+                                                 ValueError, LookupError) as e:
             # RecursionError: a document that is nested deeper than the parser
             # can go. UnicodeDecodeError: a request that is not text at all.
+            # LookupError, ValueError: the charset of the request is not a
+            # text encoding that python knows.
             raise Fault('Client.JsonDecodeError', repr(e))
 
     def create_out_string(self, ctx, out_string_encoding='utf8'):
